@@ -17,4 +17,5 @@ run() {
   find "$GOCACHE" -type f -mmin +25 -delete 2>/dev/null
 }
 export -f run
-ls -d seeded/*/ | xargs -P 4 -I{} bash -c 'run {}'
+# optional argument: an extended regular expression selecting seed directories (e.g. 'C0[1245]|C1[03]')
+ls -d seeded/*/ | grep -E "${1:-.}" | xargs -P 4 -I{} bash -c 'run {}'
